@@ -64,10 +64,10 @@ def plan(tier, seed):
     # sorts between a module and its sub modules (a-b) or extends it (ab), layers given by name and mixed with regexes
     for naming in ("adversarial", "hyphen"):
         shards += [dict(s, part="layer", naming=naming, bound="layer-rule reports " + s["bound"] + " naming=" + naming)
-                   for s in plan_graph_shards("A", n_max=4 if tier == "quick" else 5, chunk=32 if tier == "quick" else 64)]
+                   for s in plan_graph_shards("A", n_max=4, chunk=32) + ([] if tier == "quick" else plan_graph_shards("B", n_max=5, n_min=5, k=2, parts=8))]
     # rules whose subject or object is given by a pattern report exactly what the rule naming the matched modules reports
     shards += [dict(s, part="regex", bound="reports of pattern rules " + s["bound"])
-               for s in plan_graph_shards("A", n_max=4 if tier == "quick" else 5, chunk=32 if tier == "quick" else 64)]
+               for s in plan_graph_shards("A", n_max=4, chunk=32) + ([] if tier == "quick" else plan_graph_shards("B", n_max=5, n_min=5, k=2, parts=8))]
     from .c02 import pair_cases
 
     for lo in range(0, len(pair_cases()) + 200, 160):
